@@ -18,7 +18,7 @@ func init() {
 
 func c03GenOpts(router string) rt.GenOpts {
 	o := rt.GenOpts{Router: router, MaxSvcs: 4, MinSvcs: 2, MaxRoutes: 6, MaxRootLen: 2, MaxPathLen: 3, VarRoots: router == "curly", Conds: true, Media: true,
-		Styles: false, Distinct: true, Nested: true, Methods: []string{"GET", "GET", "POST"}}
+		Styles: false, Distinct: true, Nested: true, Methods: []string{"GET", "GET", "POST"}, StarMedia: true}
 	return o
 }
 
@@ -262,7 +262,9 @@ func c04(ctx *core.Ctx) {
 		o.MaxRootLen = 3
 		t := rt.GenTable(r, o)
 		ctx.Case(ti, "router="+router+" table="+core.JSON(t))
-		c := rt.Build(t, rt.DefaultBuild(router))
+		bo := rt.DefaultBuild(router)
+		bo.Switched = ti%4 == 2 // the router was configured back and forth before use
+		c := rt.Build(t, bo)
 		rr := ctx.Rand(ti, "req")
 		for qi := 0; qi < perTable; qi++ {
 			req := rt.GenReq(rr, t, router)
@@ -347,15 +349,25 @@ func c14(ctx *core.Ctx) {
 		router := routerOf(ti)
 		r := ctx.Rand(ti, "table")
 		o := fullGenOpts(router)
-		if router == "jsr311" {
+		withOptions := ti%3 == 1
+		if router == "jsr311" || withOptions {
+			// the OPTIONS filter computes its Allow header with the regular-expression engine of RouterJSR311,
+			// whatever router the container uses: same restriction as for that router
 			o.NoWild = true
 		}
 		t := rt.GenTable(r, o)
 		ctx.Case(ti, "router="+router+" table="+core.JSON(t))
 		c := rt.Build(t, rt.DefaultBuild(router))
+		if withOptions {
+			// the Allow header the OPTIONS filter computes is also "decided by the framework"
+			c.Filter(c.OPTIONSFilter)
+		}
 		rr := ctx.Rand(ti, "req")
 		for qi := 0; qi < perTable; qi++ {
 			req := rt.GenReq(rr, t, router)
+			if withOptions && qi%2 == 0 {
+				req.Method = "OPTIONS"
+			}
 			p := req.Path
 			for strings.HasSuffix(p, "/") {
 				p = p[:len(p)-1]
@@ -378,6 +390,17 @@ func c14(ctx *core.Ctx) {
 					shape = rt.Full(s, rs).KindShape()
 				}
 				ctx.Sig(fmt.Sprintf("%s|%s|%s", router, oa.Class(), shape))
+			}
+			if withOptions && req.Method == "OPTIONS" {
+				ctx.Count("options_filter_pairs", 1)
+				ha, hb := oa.Rec.Hdr(), ob.Rec.Hdr()
+				if setOf(ha["Allow"]) != setOf(hb["Allow"]) || setOf(ha["Access-Control-Allow-Methods"]) != setOf(hb["Access-Control-Allow-Methods"]) {
+					ctx.Violation(ti, "c14:options-allow:"+router, fmt.Sprintf("OPTIONS %q -> Allow %v but %q -> Allow %v", p, ha["Allow"], p+"/", hb["Allow"]),
+						caseDoc{Router: router, Entry: rt.Dispatch, Table: t, Req: b, Obs: ob, Want: ha["Allow"]})
+				}
+				if len(ha["Allow"]) > 0 && ha["Allow"][0] != "" {
+					ctx.Sig(fmt.Sprintf("%s|options|%d", router, len(strings.Split(ha["Allow"][0], ","))))
+				}
 			}
 			if oa.Sig() != ob.Sig() {
 				ctx.Violation(ti, "c14:"+router+":"+oa.Class()+"-vs-"+ob.Class(), fmt.Sprintf("%s %q -> %s but %q -> %s", req.Method, p, oa.Sig(), p+"/", ob.Sig()),
